@@ -81,6 +81,9 @@ pub fn vio_read_to_end_take<S: VRead>(s: &mut S, limit: u64, v: &mut Vec<u8>) ->
             && ((r->Ok_0 > 0 && old(v)@.len() == 0) ==> final(v)@ == old(s).data().subrange(old(s).pos() as int, old(s).pos() + r->Ok_0)),
         r is Err ==> old(s).pos() <= final(s).pos() <= old(s).pos() + smin(limit as int, srem(old(s)) as int)
             && final(v)@.len() >= old(v)@.len(),
+        // the adaptor has no error of its own: it fails only when the source reports an error (other than Interrupted)
+        r is Err ==> final(s).nerr() > old(s).nerr(),
+        final(s).nerr() >= old(s).nerr(),
 { unimplemented!() }
 
 // io::copy(&mut (&mut X).take(N), &mut io::sink())   [rewrite R8]
@@ -90,6 +93,8 @@ pub fn vio_skip_take<S: VRead>(s: &mut S, limit: u64) -> (r: std::io::Result<u64
     ensures final(s).wf(), final(s).data() == old(s).data(),
         r is Ok ==> r->Ok_0 == smin(limit as int, srem(old(s)) as int) && final(s).pos() == old(s).pos() + r->Ok_0,
         r is Err ==> old(s).pos() <= final(s).pos() <= old(s).pos() + smin(limit as int, srem(old(s)) as int),
+        r is Err ==> final(s).nerr() > old(s).nerr(),
+        final(s).nerr() >= old(s).nerr(),
 { unimplemented!() }
 
 // ---- std::io::Cursor<Vec<u8>> : the operations the code uses (model, documented behaviour)
@@ -140,6 +145,7 @@ pub fn vio_read_exact<S: VRead>(s: &mut S, buf: &mut [u8]) -> (r: std::io::Resul
             && final(buf)@ == old(s).data().subrange(old(s).pos() as int, (old(s).pos() + old(buf)@.len()) as int),
         r is Err ==> old(s).pos() <= final(s).pos() <= old(s).pos() + smin(old(buf)@.len() as int, srem(old(s)) as int),
         srem(old(s)) < old(buf)@.len() ==> r is Err,
+        final(s).nerr() >= old(s).nerr(),
 { unimplemented!() }
 
 #[verifier::external_body]
